@@ -7,7 +7,7 @@ LEVEL = "model_checking"
 def run(tier):
     return _common.corpus_property(
         "C17", tier, LEVEL, models=[("Metrics", "Metrics_a.cfg")] + ([("Metrics", "Metrics_b.cfg")] if tier == "thorough" else []),
-        need=('converged',),
+        need=('converged','converged_after_repopulation_with_every_cluster_non_empty'),
         rule="""every converged completed run with all clusters non-empty""",
         extra=lambda rep, trs, tier: _metrics.ch_family(rep, tier, {"C17"}),
         nontrivial=lambda t: (t['hdr']['id'],) if any(e['ev']=='converged' for e in t['events']) else None)
